@@ -1725,8 +1725,10 @@ Proof.
     unfold parent_of. rewrite (Hsh _ _ Hrw). reflexivity.
   - intros Hst i ri Hri. destruct (s_status s) eqn:Est; try contradiction; try congruence;
       apply (Hpost _ _ (Hsh _ _ Hri)).
-  - intros i ri Hri. pose proof (Hex _ _ (Hsh _ _ Hri)) as H. simpl in H. rewrite H.
-    destruct (r_status ri); simpl; split; auto; try discriminate; intros [C|[C|C]]; discriminate.
+  - intros i ri Hri. pose proof (Hex _ _ (Hsh _ _ Hri)) as H.
+    change (sh_exited (shp_of ri)) with (r_exited ri) in H. change (sh_status (shp_of ri)) with (r_status ri) in H. rewrite H.
+    destruct (r_status ri); simpl; split; intros K; auto; try discriminate;
+      try (destruct K as [C|[C|C]]; discriminate).
   - intros i ri p Hri Hp. eapply Hwf; [apply Hsh; exact Hri|exact Hp].
   - exact Hpu.
 Qed.
@@ -1737,3 +1739,55 @@ Proof. intros s H. apply post_inv_wellformed, reachable_post, H. Qed.
 (* and one step of it, for any session that satisfies the invariant (e.g. one read back from storage) *)
 Theorem wellformed_after_start : forall a t f x, start a t f = ROk x -> status_wellformed (session_ x).
 Proof. intros. eapply reachable_wellformed, reach_start; eauto. Qed.
+
+(* a resume of a session that satisfies the invariant is rejected, or fails the session at once, or
+   enters the main loop in a state that satisfies the loop invariant *)
+Lemma resume_decompose : forall a s r tmo res,
+  post_inv s -> resume_session a s r tmo = Resumed res ->
+  (exists y wi c, res = ROk (fail_session y wi c) /\ core_inv (session_ y) /\ s_pushed (session_ y) = None /\
+                  frame {| session_ := s; sprint_ := empty_sprint |} y) \/
+  (exists x2 l, res = continue_until_wait (fuel_for a (session_ x2)) a x2 l /\ loop_inv x2 l /\
+                l_steps l = 0%Z /\ s_pushed (session_ x2) = None /\ (exists wi, l_cur l = Some wi) /\
+                frame {| session_ := s; sprint_ := empty_sprint |} x2).
+Proof.
+  intros a s r tmo res Hpost. unfold resume_session.
+  destruct (sstatus_eqb (s_status s) SWaiting) eqn:Est; simpl; [|discriminate].
+  apply sstatus_eqb_true in Est.
+  destruct (waiting_run s) as [wi|] eqn:Ewr; [|discriminate].
+  assert (Hfs : forall c res', Resumed (ROk (fail_session {| session_ := s; sprint_ := empty_sprint |} wi c)) = Resumed res' ->
+            (exists y wi c, res' = ROk (fail_session y wi c) /\ core_inv (session_ y) /\ s_pushed (session_ y) = None /\
+                  frame {| session_ := s; sprint_ := empty_sprint |} y) \/
+            (exists x2 l, res' = continue_until_wait (fuel_for a (session_ x2)) a x2 l /\ loop_inv x2 l /\
+                l_steps l = 0%Z /\ s_pushed (session_ x2) = None /\ (exists wi, l_cur l = Some wi) /\
+                frame {| session_ := s; sprint_ := empty_sprint |} x2)).
+  { intros c res' H. inversion H; subst. left. exists {| session_ := s; sprint_ := empty_sprint |}, wi, c.
+    destruct Hpost as [Hc [Hp _]]. split; [reflexivity|]. split; [exact Hc|]. split; [exact Hp|apply frame_refl]. }
+  destruct (match get_run s wi with
+            | Some rn => match get_flow a (r_flow rn) with Some _ => false | None => true end
+            | None => true end); [apply Hfs|].
+  destruct (Z.of_nat (count_waits s) >=? max_resumes (a_opts a))%Z; [apply Hfs|].
+  destruct (path_location a s wi) as [[pos n]|]; [|apply Hfs].
+  destruct (n_router n) as [[[w|] rres rcats rcases rdef]|]; try apply Hfs.
+  destruct (negb (accepts w r)); [discriminate|].
+  cbv zeta.
+  set (x1 := apply_resume (with_session {| session_ := s; sprint_ := empty_sprint |} (fun s => set_status s SActive)) wi (Some (wi, pos)) r).
+  assert (M : forall l, l_cur l = Some wi -> l_exit l = None -> mid_inv x1 l wi None).
+  { intros l Hc He. apply resume_mid_inv; auto. }
+  assert (F1 : frame {| session_ := s; sprint_ := empty_sprint |} x1).
+  { unfold x1. destruct (apply_resume_shape (with_session {| session_ := s; sprint_ := empty_sprint |} (fun s => set_status s SActive)) wi (Some (wi, pos)) r)
+      as (g & _ & _ & _ & _ & F). exact F. }
+  set (l0 := {| l_cur := Some wi; l_node := None; l_exit := None; l_operand := []; l_step := None; l_steps := 0%Z; l_trigger := false |}).
+  pose proof (find_resume_exit_shape a x1 wi (is_timeout r) tmo) as Hfre.
+  destruct (find_resume_exit a x1 wi (is_timeout r) tmo) as [x2 e op|x2|x2|]; try contradiction.
+  - intros H. inversion H; subst; clear H. right. eexists x2, _. split; [reflexivity|].
+    destruct Hfre as [[Hss Hact]|[-> Hfsh]].
+    + split; [eapply mid_same; [apply (M l0); reflexivity|exact Hss|reflexivity|]|].
+      * simpl. intros He. rewrite <- status_at_st_at. apply Hact. exact He.
+      * split; [reflexivity|]. split; [rewrite (ss_pushed _ _ Hss); apply (mi_pushed _ _ _ _ (M l0 eq_refl eq_refl))|].
+        split; [eexists; reflexivity|]. eapply frame_trans; [exact F1|apply (ss_frame _ _ Hss)].
+    + split; [eapply mid_fail_cur; [apply (M l0); reflexivity|exact Hfsh|reflexivity|reflexivity]|].
+      split; [reflexivity|]. split; [rewrite (fs_pushed _ _ _ Hfsh); apply (mi_pushed _ _ _ _ (M l0 eq_refl eq_refl))|].
+      split; [eexists; reflexivity|]. eapply frame_trans; [exact F1|apply (fs_frame _ _ _ Hfsh)].
+  - subst x2. intros H; inversion H; subst. left. exists x1, wi, FRouteError. split; [reflexivity|].
+    split; [apply (mi_core _ _ _ _ (M l0 eq_refl eq_refl))|]. split; [apply (mi_pushed _ _ _ _ (M l0 eq_refl eq_refl))|exact F1].
+Qed.
